@@ -54,9 +54,42 @@ def tree_to_ast(tree):
 
 
 def value_ast(v):
+    """declared values are kept as unevaluated sympy trees by the transformer (-7 is Mul(-1, 7), 1e-3/5 is
+    Mul(0.001, Pow(5, -1))); rebuild the expression structurally so that integer / floating literals and the
+    operators survive"""
     v = sympy.sympify(v)
     if v.is_Integer:
         return ("num", str(int(v))) if int(v) >= 0 else ("neg", ("num", str(-int(v))))
+    if v.is_Float:
+        f = float(v)
+        return ("num", repr(f)) if f >= 0 else ("neg", ("num", repr(-f)))
+    if v.is_Rational:
+        return ("bin", "/", value_ast(sympy.Integer(v.p)), value_ast(sympy.Integer(v.q)))
+    if v is sympy.pi:
+        return ("pi",)
+    if v.is_Mul:
+        args = list(v.args)
+        if args[0] == -1 and len(args) >= 2:
+            rest = args[1] if len(args) == 2 else sympy.Mul(*args[1:], evaluate=False)
+            return ("neg", value_ast(rest))
+        acc = None
+        for a in args:
+            if a.is_Pow and a.args[1] == -1 and acc is not None:
+                acc = ("bin", "/", acc, value_ast(a.args[0]))
+            else:
+                acc = value_ast(a) if acc is None else ("bin", "*", acc, value_ast(a))
+        return acc
+    if v.is_Add:
+        acc = None
+        for a in v.args:
+            if acc is not None and a.is_Mul and a.args[0] == -1:
+                rest = a.args[1] if len(a.args) == 2 else sympy.Mul(*a.args[1:], evaluate=False)
+                acc = ("bin", "-", acc, value_ast(rest))
+            else:
+                acc = value_ast(a) if acc is None else ("bin", "+", acc, value_ast(a))
+        return acc
+    if v.is_Pow:
+        return ("bin", "**", value_ast(v.args[0]), value_ast(v.args[1]))
     f = float(v)
     return ("num", repr(f)) if f >= 0 else ("neg", ("num", repr(-f)))
 
